@@ -714,5 +714,6 @@ package motion
 //@ func NewConfig
 //@   mode permissive
 //@   allocates
+//@   only [C07,C08,C11,C15] thermalMotionConfig in Unmarshal#1, validateConfig#1, store, use:Return
 //@   ensures result1 == nil ==> result0 != nil
 //@   check [C07,C11,C15] ncalls("DefaultThermalMotion") == 1 && callarg("DefaultThermalMotion", 1, 0) == cameraModel && ncalls("Unmarshal") == 1 && callarg("Unmarshal", 1, 1) == config.ThermalMotionKey
